@@ -11,6 +11,7 @@
 -/
 import ClientGoVerif.Proofs.MvccInv
 import ClientGoVerif.Proofs.MvccReach
+import ClientGoVerif.Proofs.MvccTemporal
 namespace CGV.Props.C12
 open CGV CGV.Mvcc
 
@@ -151,6 +152,15 @@ theorem reachable_store_wellformed (s : Store) (h : Reachable s) :
     KvSorted s.kv ∧ ∀ p ∈ s.kv, Desc p.2.writes ∧ WellTimed p.2.writes ∧
       ∀ l, p.2.lock = some l → Fresh p.2.writes l.startTS :=
   ⟨h.inv.1, fun p hp => ⟨(h.entries p hp).desc, (h.entries p hp).timed, (h.entries p hp).lockFresh⟩⟩
+
+/-- refinement: every command moves every key by exactly one of the eight labelled steps of `KStep`
+    (same, commit, rollback, marker, locks, unlock, gc, wipe), with a label the command allows for that key -/
+theorem every_command_refines_key_steps (s : Store) (c : Cmd) (hs : SInv s) (hok : c.Ok s) :
+    KvSorted (c.run s).kv ∧ ∀ k, ∃ lab, c.labels k lab ∧ KStep (getEntry s.kv k) lab (getEntry (c.run s).kv k) :=
+  run_refines s c hs hok
+
+/-- in every reachable state a transaction has at most one record on a key -/
+theorem reachable_one_record_per_txn (s : Store) (h : Reachable s) (k : Bytes) : Uniq (getEntry s.kv k).writes := h.uniq k
 
 /-- the same over command lists, from any state that already satisfies the invariant -/
 theorem not_both_committed_and_rolled_back_runs (cs : List Cmd) (hok : OkAll {} cs) :
